@@ -64,8 +64,8 @@ EXHAUSTIVE_SCOPE = {
              "fully modelled vi keys: all sequences len<=3 over {i, a, x, u, escape, redo} (+200 sampled of len 4-6)",
     "thorough": "api: all sequences len<=5 over 8 calls x 2 initial docs, all command sequences len<=5 over 7 commands; "
                 "keys: all sequences len<=3 over 9 emacs keys and 9 vi keys (+1000 sampled of len 4-6 each); fully "
-                "modelled emacs keys: all sequences len<=4 over {a, b, backspace, left, c-k, c-_, redo} (+2500 sampled "
-                "of len 5-7); fully modelled vi keys: all sequences len<=4 over {i, a, x, u, escape, redo} (+2000 "
+                "modelled emacs keys: all sequences len<=4 over {a, b, backspace, left, c-k, c-_, redo} (+2000 sampled "
+                "of len 5-7); fully modelled vi keys: all sequences len<=4 over {i, a, x, u, escape, redo} (+1500 "
                 "sampled of len 5-8)"}
 TRUSTED = ["harness/c07.py observes every KeyProcessor._call_handler call by wrapping the bound method on the instance "
            "(the real method runs unchanged inside) and counts Buffer.undo()/redo()/save_to_undo_stack() calls the same way",
@@ -746,7 +746,7 @@ def _api_cases(quick, rng):
             ops = [list(o) for c in tup for o in CMD_ALPHA[c]]
             yield {"kind": "api", "text": "ab" if n % 2 else "", "cur": 1 if n % 2 else 0, "disc": True, "ops": ops}
     # ---- api, random
-    for _ in range(2000 if quick else 20000):
+    for _ in range(2000 if quick else 15000):
         n = rng.choice([0, 1, 2, 3, 5, 8, 20])
         text = "".join(rng.choice(RAND_CHARS) for _ in range(n))
         cur = rng.choice([0, len(text), rng.randrange(0, len(text) + 1)])
@@ -799,7 +799,7 @@ def _key_cases(quick, rng):
             odd = len(tup) % 2
             kcases.append({"kind": "keys", "mode": mode, "multiline": False, "text": "xy" if odd else "",
                            "cur": 1 if odd else 0, "history": [], "ops": _flatten([[k] for k in tup])})
-    for _ in range(350 if quick else 6000):
+    for _ in range(350 if quick else 4500):
         mode = rng.choice(["emacs", "vi"])
         toks = EMACS_TOKENS if mode == "emacs" else VI_TOKENS
         n = rng.choice([0, 0, 1, 2, 3, 6, 12])
@@ -833,12 +833,12 @@ def _key_cases(quick, rng):
     if quick:   # beyond the exhaustive bound: a seeded sample of longer sequences
         tups += [tuple(rng.choice(small) for _ in range(rng.choice([4, 4, 5]))) for _ in range(250)]
     else:
-        tups += [tuple(rng.choice(small) for _ in range(rng.choice([5, 5, 6, 7]))) for _ in range(2500)]
+        tups += [tuple(rng.choice(small) for _ in range(rng.choice([5, 5, 6, 7]))) for _ in range(2000)]
     for tup in tups:
         odd = len(tup) % 2
         ecases.append({"kind": "ekeys", "multiline": False, "text": "xy" if odd else "", "cur": 1 if odd else 0,
                        "ops": [[k, k if len(k) == 1 else None] for k in tup]})
-    for _ in range(150 if quick else 2000):
+    for _ in range(150 if quick else 1500):
         n = rng.choice([0, 1, 2, 3, 6, 12])
         text = "".join(rng.choice(["a", "b", " ", "x", "\n", "世"]) for _ in range(n))
         if rng.random() < 0.5:
@@ -856,12 +856,12 @@ def _key_cases(quick, rng):
     if quick:
         tups += [tuple(rng.choice(VKEYS) for _ in range(rng.choice([4, 5, 6]))) for _ in range(200)]
     else:
-        tups += [tuple(rng.choice(VKEYS) for _ in range(rng.choice([5, 6, 7, 8]))) for _ in range(2000)]
+        tups += [tuple(rng.choice(VKEYS) for _ in range(rng.choice([5, 6, 7, 8]))) for _ in range(1500)]
     for tup in tups:
         m = len(tup) % 3
         vcases.append({"kind": "vkeys", "multiline": m == 2, "text": ["", "xy", "ab\ncd"][m], "cur": [0, 1, 2][m],
                        "ops": [[k, k if len(k) == 1 else None] for k in tup]})
-    for _ in range(150 if quick else 2000):
+    for _ in range(150 if quick else 1500):
         n = rng.choice([0, 1, 2, 3, 6, 12])
         text = "".join(rng.choice(["a", "b", " ", "x", "\n", "世"]) for _ in range(n))
         if rng.random() < 0.5:
